@@ -11,6 +11,14 @@ if grep -rnE 'Admitted|admit\.|^\s*Axiom |^\s*Parameter |^\s*Conjecture |Unset G
   echo "setup: forbidden construct in coq/" >&2; exit 2
 fi
 if [ $# -gt 0 ]; then PROPS="$*"; else PROPS=$(cat harness/released.txt); fi
+# source-derived model: coq/Gen/CombiSchemeGen.v is regenerated from $VERIF_REPO/sparseSpACE/combiScheme.py (default /repo)
+# at every run (written only when its content changes). A rejected source leaves a stub that does not compile, so
+# that everything depending on the generated model (Proofs/GenCombiSchemeEq.v, Props/C01.v) fails to build.
+# Only when C01 (the property that owns the generated model) is built, so that builds of other properties running at the same
+# time with another VERIF_REPO never touch the generated file.
+case " $PROPS " in *" C01 "*)
+  /venv/bin/python "$ROOT/harness/translate/py2gallina.py" 2> >(grep -v conda >&2) || echo "setup: translator rejected the source (coq/Gen/CombiSchemeGen.v is a non-compiling stub)" >&2 ;;
+esac
 cd "$ROOT/coq"
 find . -name '*.v' | sed 's|^\./||' | sort > .files.new
 if ! cmp -s .files.new .files || [ ! -f Makefile.coq ]; then
